@@ -61,7 +61,8 @@ def mutate(doc, path, op, param):
         if param == "wrong_pem":
             new = (FX + "/server.crt") if keys[-1] == "key" else (FX + "/server.key")
         else:
-            new = {"no_slash": "api", "wildcard": "/api/*rest", "bad_header": "a\nb", "unbindable": "203.0.113.1:%s" % str(old).rsplit(":", 1)[-1]}[param]
+            new = {"no_slash": "api", "wildcard": "/api/*rest", "bad_header": "a\nb", "unbindable": "203.0.113.1:%s" % str(old).rsplit(":", 1)[-1],
+                   "u64max": 18446744073709551615}[param]
         cur[keys[-1]] = new
         return d
     if op == "logscript":
@@ -129,7 +130,8 @@ def probe_running(wd, name, doc, ports, sweep=True):
     why = ""
     try:
         for port, data in ((ports[1], b"CONNECT 127.0.0.1:9 HTTP/1.1\r\n\r\n"), (ports[1], b"CONNECT 127.0.0.1:9 HTTP/1.1\r\n\r\n"), (ports[1], b"CONNECT 127.0.0.1:9 HTTP/1.1\r\n\r\n"),
-                           (ports[1], b"CONNECT localhost:80 HTTP/1.1\r\n\r\n"), (ports[1], b"CONNECT localhost:443 HTTP/1.1\r\n\r\n"), (ports[3], b"\x05\x01\x02\x01\x01a\x01a\x05\x01\x00\x01\x7f\x00\x00\x01\x00\x09")):
+                           (ports[1], b"CONNECT localhost:80 HTTP/1.1\r\n\r\n"), (ports[1], b"CONNECT localhost:443 HTTP/1.1\r\n\r\n"), (ports[3], b"\x05\x01\x02\x01\x01a\x01a\x05\x01\x00\x01\x7f\x00\x00\x01\x00\x09"),
+                           (ports[3], b"\x05\x01\x02\x01\x01b\x01b\x05\x01\x00\x01\x7f\x00\x00\x01\x00\x09")):
             try:
                 s = socket.create_connection(("127.0.0.1", port), timeout=3)
             except OSError:
